@@ -1,7 +1,7 @@
 //! C17 — segwit address checksums detect every one- and two-character corruption.
 //! For each representative address: ALL single and double substitutions over the 32-character
 //! alphabet in the data part (witness version and checksum characters included), each parsed with
-//! from_str and parse_with_params under all three networks. HRP: every character replaced by each
+//! from_str, parse_with_params under all three networks and the serde string deserializer. HRP: every character replaced by each
 //! other lower-case alphanumeric, singly and in pairs.
 
 use crate::engine::{fnv, guard, Report};
@@ -14,8 +14,15 @@ use serde_json::{json, Value};
 use std::str::FromStr;
 use std::sync::atomic::{AtomicU64, Ordering};
 
+/// every public way of turning text into an address: FromStr, parse_with_params under each network, and the serde
+/// deserializer fed with a string
 fn accepts(s: &str) -> Result<bool, String> {
-    guard(|| Address::from_str(s).is_ok() || NETS.iter().any(|p| Address::parse_with_params(s, p).is_ok()))
+    guard(|| {
+        use serde::de::IntoDeserializer;
+        use serde::Deserialize;
+        let d: serde::de::value::StrDeserializer<serde::de::value::Error> = s.into_deserializer();
+        Address::from_str(s).is_ok() || NETS.iter().any(|p| Address::parse_with_params(s, p).is_ok()) || Address::deserialize(d).is_ok()
+    })
 }
 
 thread_local! {
